@@ -4,8 +4,9 @@ CONSTANTS MaxCalls = 2
   AllowDestroy = TRUE
   AllowCrash = TRUE
   FixEatKill = TRUE
+  ReapOnRefusal = TRUE
   FixDonePrio = TRUE
 SPECIFICATION SpecLive
-INVARIANTS NoDesync OneAnswer PingOk LostCallsFail ExecAnswers NoOrphan
+INVARIANTS NoDesync OneAnswer PingOk LostCallsFail ExecAnswers NoOrphan ReapedAtServe
 PROPERTIES AllReturn CancelReturns HostDeathKillsAll
 CHECK_DEADLOCK FALSE
